@@ -84,7 +84,7 @@ let var_model alts steps =
         String.concat ""
           (List.map (fun i -> b2s (ok_or (get_if x (index_of (alt_ty alts (ni i)) alts)) <> None)) idxs)
       in
-      add [ "h"; h; g1 ^ g2 ];
+      add [ "h"; h; g1 ^ g2 ^ g1 ^ g2 ];
       match ok_or (visit_types [ alts ] [ x ]) with
       | [ (t, v) ] -> add [ "v"; sn (ty_id t); si v ]
       | _ -> raise (Bad "visit-shape"))
@@ -119,7 +119,7 @@ let var_spec alts steps =
       let g2 =
         String.concat "" (List.map (fun i -> b2s (sv_get_if x (index_of (alt_ty alts (ni i)) alts) <> None)) idxs)
       in
-      add [ "h"; h; g1 ^ g2 ];
+      add [ "h"; h; g1 ^ g2 ^ g1 ^ g2 ];
       match sv_visit [ alts ] [ x ] with
       | [ (t, v) ] -> add [ "v"; sn (ty_id t); si v ]
       | _ -> raise (Bad "visit-shape"))
@@ -199,6 +199,9 @@ let opt_model tT tU steps =
   observers a b;
   observers b a;
   add [ "life"; "ok" ];
+  (* etl-only detail: operator-> = get_if<1>(&_var) is null on a disengaged optional *)
+  let nul x = b2s (ok_or (get_if x (S O)) = None) in
+  add [ "#"; nul a ^ nul a ^ nul b ^ nul b ];
   join (List.rev !buf)
 
 let opt_spec tT tU steps =
@@ -287,6 +290,9 @@ let exp_model tT tE steps =
   observers a;
   observers b;
   add [ "life"; "ok" ];
+  (* etl-only detail: operator-> = get_if<0>(&_u) is null when there is no value *)
+  let nul x = b2s (ok_or (get_if x O) = None) in
+  add [ "#"; nul a ^ nul a ^ nul b ^ nul b ];
   join (List.rev !buf)
 
 let exp_spec tT tE steps =
@@ -366,6 +372,30 @@ let ref_spec steps =
   add [ "life"; "ok" ];
   join (List.rev !buf)
 
+(* ------------------------------------------------------------------ unexpected *)
+let uop_of s =
+  let t = tb s.t in
+  match s.opc with
+  | 'v' | 'i' -> UValue (t, zi s.p)
+  | 'c' -> UCopy t
+  | 'm' -> UMove t
+  | 's' | 'S' -> USwap
+  | 'E' -> USetC (zi s.p)
+  | _ -> raise Not_found
+
+let unx_leg step steps =
+  let buf = ref [ "ok" ] in
+  let add l = buf := List.rev_append l !buf in
+  let st = ref ((Z0, Z0), Z0) in
+  List.iter
+    (fun s ->
+      st := step !st (uop_of s);
+      let (a, b), c = !st in
+      add [ si a; si b; si c; b2s (unex_eq a b); b2s (not (unex_eq a b)); b2s (unex_eq a c); b2s (unex_eq b c); ";" ])
+    steps;
+  add [ "life"; "ok" ];
+  join (List.rev !buf)
+
 (* ------------------------------------------------------------------ entry *)
 let guard f = try f () with Bad m -> m
 
@@ -384,6 +414,10 @@ let run_case op tk =
           let tT, tE = match op with "exp.il" -> (TInt, TLong) | "exp.tt" -> (TTr, TTr2) | _ -> (TTr, TInt) in
           let steps = read_steps tk in
           (guard (fun () -> exp_model tT tE steps), guard (fun () -> exp_spec tT tE steps))
+      | "unx.il" | "unx.tt" ->
+          let tE = if op = "unx.il" then TInt else TTr in
+          let steps = read_steps tk in
+          (guard (fun () -> unx_leg (ustep tE) steps), guard (fun () -> unx_leg (su_step tE) steps))
       | "ref.i" | "ref.t" ->
           let steps = read_steps tk in
           (guard (fun () -> ref_model steps), guard (fun () -> ref_spec steps))
